@@ -394,6 +394,7 @@ static int run_random(unsigned long seed, long execs, const char *outp, long fir
 		std::string variant = (xi % 2) ? "nonblock" : "select";
 		bool auth = (xi / 2) % 2, enc = (xi / 4) % 2, chunked = (xi / 8) % 2;
 		int shape = (int)rnd(10);      // 0-5 single messages, 6-7 uniform arrays, 8 mixed arrays/singles, 9 big values
+		if (chunked && variant == "select" && shape >= 3 && shape <= 5) shape = 8;   // the delimiter logic exists only here: more mixed traffic
 		size_t arrsize = (shape >= 6 && shape <= 8) ? 1 + rnd(3) : 0;
 		bool uni = (shape == 6 || shape == 7);
 		bool faulty = auth && rnd(100) < 45 && shape != 8;
